@@ -147,7 +147,25 @@ func C12_Audit() {
 	h := vStartHist(cfg)
 	h.vBuildVersions(maxV, maxW)
 	vAuditStore(h, "after-commits", h.fastOn)
-	switch vChoice("then", 4) {
+	switch vChoice("then", 5) {
+	case 4:
+		// rollback to an earlier version (also an empty one), then one more commit
+		if h.latest < 2 {
+			vStop()
+		}
+		target := h.first + int64(vChoice("target", int(h.latest-h.first)))
+		err := h.tree.LoadVersionForOverwriting(target)
+		vAssert(err == nil, "c12:overwrite-err")
+		for v := target + 1; v <= h.latest; v++ {
+			delete(h.vers, v)
+			delete(h.refRoots, v)
+			delete(h.refHash, v)
+		}
+		h.latest = target
+		h.resetWorkToLatest()
+		vAuditStore(h, "after-overwrite", h.fastOn)
+		h.doCommit()
+		vAuditStore(h, "after-overwrite-commit", h.fastOn)
 	case 0:
 		h.doPrune()
 		vAuditStore(h, "after-prune", h.fastOn)
